@@ -250,6 +250,9 @@ type cacheCase struct {
 }
 
 func runCache(c *cacheCase, res *caseResult, rng *rand.Rand) {
+	for i := range c.Exp {
+		c.Exp[i].inflate()
+	}
 	s := newSubst(rng)
 	ex := expand(c.Toks, s)
 	m, err := rueidis.VerifReadNextMessage(bufio.NewReader(bytes.NewReader(ex.data)))
@@ -303,7 +306,20 @@ func runCache(c *cacheCase, res *caseResult, rng *rand.Rand) {
 			res.violate("c17 cachehit "+class(c.Sig), "the reconstructed reply is not marked as a cache hit ["+desc+"]", c)
 		}
 	}
+	// every truncation point; for a serialization above 64 KiB (wide aggregates) the first and last KiB, every 9973rd
+	// position and 300 seeded random positions (each attempt parses the whole prefix)
+	sampled := len(buf) > 1<<16
+	var pick map[int]bool
+	if sampled {
+		pick = map[int]bool{}
+		for i := 0; i < 300; i++ {
+			pick[rng.Intn(len(buf))] = true
+		}
+	}
 	for k := 0; k < len(buf); k++ {
+		if sampled && k >= 1024 && k < len(buf)-1024 && k%9973 != 0 && !pick[k] {
+			continue
+		}
 		var tm rueidis.RedisMessage
 		var terr error
 		cut := append([]byte(nil), buf[:k]...) // exact capacity: reading past the truncation point is out of bounds
